@@ -7,7 +7,9 @@
 (*   instant   datetime Z                                                             *)
 EXTENDS Integers, Sequences, Txt
 
-IsoDate(y, m, d) == Padded(y, 4) \o <<Dash>> \o Padded(m, 2) \o <<Dash>> \o Padded(d, 2)
+\* years outside 0..9999 do not occur; negative years carry a sign in front of the four-digit magnitude (pattern documentation of "uuuu")
+IsoYear(y) == IF y < 0 THEN <<Dash>> \o Padded(-y, 4) ELSE Padded(y, 4)
+IsoDate(y, m, d) == IsoYear(y) \o <<Dash>> \o Padded(m, 2) \o <<Dash>> \o Padded(d, 2)
 IsoHms(s) == Padded(s \div 3600, 2) \o <<Colon>> \o Padded((s % 3600) \div 60, 2) \o <<Colon>> \o Padded(s % 60, 2)
 IsoTime(s, n) == IsoHms(s) \o (IF n = 0 THEN <<>> ELSE <<Dot>> \o Fraction9(n))
 IsoH(s) == Padded(s \div 3600, 2)
